@@ -98,6 +98,7 @@ class Sched:
 
 
 S = None      # the active scheduler
+ALIVE_YIELD = False   # is Thread.is_alive() a yield point? (set per case by conc_impl.run_case)
 
 
 class Thread:
@@ -125,6 +126,10 @@ class Thread:
         self._t.start()
 
     def is_alive(self):
+        if ALIVE_YIELD and S is not None:
+            # optional yield point (oracle-only cases): other threads may run between whatever the caller did last (say, a timed
+            # q.get that found the queue empty) and this read of the thread's status
+            S.point("th.is_alive")
         return self._started and not self._done
 
     def join(self, timeout=None):
